@@ -953,6 +953,9 @@ func (e *Exec) index(v *ast.IndexExpr, c *Ctx) Term {
 		return Term{fmt.Sprintf("(select %s %s)", base.S, idx.S), base.T.Elem}
 	case KSlice:
 		if !c.spec {
+			if !hasBound(base.S) {
+				e.assume(c.st, fmt.Sprintf("(>= %s 0)", e.seqLen(base)))
+			}
 			e.safetyAssert(c, "index", fmt.Sprintf("(and (<= 0 %s) (< %s %s))", idx.S, idx.S, e.seqLen(base)), exprText(v), v)
 		}
 		return e.seqGet(base, idx.S)
@@ -994,10 +997,21 @@ func (e *Exec) sliceExpr(v *ast.SliceExpr, c *Ctx) Term {
 	if v.High != nil {
 		hi = e.eval(v.High, c).S
 	}
+	if !c.spec && !hasBound(base.S) {
+		e.assume(c.st, fmt.Sprintf("(>= %s 0)", e.seqLen(base))) // the length of a slice is never negative
+	}
 	if !c.spec {
 		e.safetyAssert(c, "slice-bounds", fmt.Sprintf("(and (<= 0 %s) (<= %s %s) (<= %s %s))", lo, lo, hi, hi, e.seqLen(base)), exprText(v), v)
 	}
-	return e.seqSub(base, lo, hi)
+	r := e.seqSub(base, lo, hi)
+	if !c.spec && v.Max == nil {
+		o := &sliceOrigin{base: base, lo: lo, text: exprText(v)}
+		if bo := e.sliceOrig[base.S]; bo != nil {
+			o = &sliceOrigin{base: bo.base, lo: fmt.Sprintf("(+ %s %s)", bo.lo, lo), text: bo.text}
+		}
+		e.sliceOrig[r.S] = o
+	}
+	return r
 }
 
 // seqSub builds s[lo:hi] as a fresh sequence with pointwise facts.
